@@ -424,7 +424,14 @@ def rule_ref(ctx: Ctx) -> RuleReport:
                 rep.fail(Finding("C14-REF", XLSX_, fi.qual, "part name guessed from the tab position: " + anorm(e, fi.node), f"`{short(e, 60)}` takes the n-th tab to be stored in sheet<n>.xml; tabs that were re-ordered, or a workbook whose first sheet was deleted, keep other part names: the picture is reported on the wrong sheet or lost", line=e.lineno))
     if n_guess == 0 and not mappers:
         raise AnalysisError("C14-REF: the XLSX reader neither maps tabs through workbook.xml.rels nor builds sheet part names: image attribution not recognised")
-    # EPUB: manifest hrefs are IRI references relative to the OPF document: percent-decoded, fragment removed, dot segments resolved
+    epub_href_clauses(ctx, rep, "C14-REF")
+    return rep
+
+
+def epub_href_clauses(ctx: Ctx, rep: RuleReport, rule: str) -> None:
+    """EPUB: manifest hrefs are IRI references relative to the OPF document: fragment removed, then percent-decoded, dot segments resolved.
+    RFC 3986 2.4: a reference is split at its delimiters *before* it is percent-decoded -- after decoding, an encoded '#' or '?' that is
+    part of a file name ('Chapter%20%232.xhtml') is indistinguishable from a delimiter."""
     EPUBX = X + "epub_extractor.py"
     rh = ctx.p.func(EPUBX, "_EpubContext.resolve_href")
     rep.unit(rh.key)
@@ -434,8 +441,48 @@ def rule_ref(ctx: Ctx) -> RuleReport:
         if fn_ in calls:
             rep.ok({"epub_href": fn_})
         else:
-            rep.fail(Finding("C14-REF", EPUBX, rh.qual, f"href not passed through {fn_}", f"resolve_href does not apply {fn_}: {why}, so the chapter or image is not found in the package and is silently left out", line=rh.node.lineno))
-    return rep
+            rep.fail(Finding(rule, EPUBX, rh.qual, f"href not passed through {fn_}", f"resolve_href does not apply {fn_}: {why}, so the chapter or image is not found in the package and is silently left out", line=rh.node.lineno))
+    # decoded values: expressions that contain an unquote(...) call, and names assigned from them
+    def is_unquote(c):
+        return isinstance(c, ast.Call) and (dotted(c.func) or "").split(".")[-1] in ("unquote", "unquote_plus", "unquote_to_bytes")
+    decoded_names: set[str] = set()
+    changed = True
+    while changed:
+        changed = False
+        for a in walk_own(rh.node):
+            if isinstance(a, ast.Assign) and len(a.targets) == 1 and isinstance(a.targets[0], ast.Name) and a.targets[0].id not in decoded_names:
+                if any(is_unquote(x) or (isinstance(x, ast.Name) and x.id in decoded_names) for x in ast.walk(a.value)):
+                    # `href = unquote(href.split('#')[0])`: the name is decoded from here on; uses *inside* the unquote argument are the raw value
+                    decoded_names.add(a.targets[0].id)
+                    changed = True
+
+    def decoded(e, at_line) -> bool:
+        if any(is_unquote(x) for x in ast.walk(e)):
+            return True
+        for x in ast.walk(e):
+            if isinstance(x, ast.Name) and x.id in decoded_names:
+                # the name holds the decoded value only after its (first) decoding assignment
+                firsts = [a.lineno for a in walk_own(rh.node) if isinstance(a, ast.Assign) and len(a.targets) == 1 and isinstance(a.targets[0], ast.Name) and a.targets[0].id == x.id
+                          and any(is_unquote(y) for y in ast.walk(a.value))]
+                if firsts and at_line > min(firsts):
+                    return True
+        return False
+
+    bad = []
+    for c in ast.walk(rh.node):
+        if not isinstance(c, ast.Call):
+            continue
+        d = (dotted(c.func) or "").split(".")[-1]
+        if d in ("urlsplit", "urlparse", "urldefrag") and c.args and decoded(c.args[0], c.lineno):
+            bad.append((c, d))
+        elif isinstance(c.func, ast.Attribute) and c.func.attr in ("split", "rsplit", "partition", "rpartition", "find", "index") and c.args and isinstance(c.args[0], ast.Constant) and c.args[0].value in ("#", "?") \
+                and decoded(c.func.value, c.lineno) and not any(is_unquote(x) and any(y is c for y in ast.walk(x)) for x in ast.walk(rh.node)):
+            bad.append((c, f"{c.func.attr}({c.args[0].value!r})"))
+    if bad:
+        for c, what in bad:
+            rep.fail(Finding(rule, EPUBX, rh.qual, f"href split at its delimiters after percent-decoding: {what}", f"`{short(c, 60)}` looks for '#' / '?' in the href after unquote(): a part whose name contains an encoded '#' or '?' ('Chapter%20%232.xhtml', 'why%3F.png') is cut at the decoded character, is not found in the package and is silently missing (chapter, unit number, image)", line=c.lineno))
+    else:
+        rep.ok({"epub_href": "delimiters are looked for before percent-decoding"})
 
 
 def rule_jpeg(ctx: Ctx) -> RuleReport:
